@@ -306,3 +306,62 @@ Proof.
     inversion E1; subst. cbn. destruct (f_go f =?s "XMLName") eqn:EX; [apply str_eqb_eq in EX; contradiction|reflexivity].
   - inversion E1; subst. reflexivity.
 Qed.
+
+(* ---- the views of Schema.v, one per etree write setting ---- *)
+(* reading the received bytes directly (the pre-decoders) and reading xmlUnmarshalElement's canonical serialisation of the
+   tree built from them give the same tokens: neither changes a value *)
+Lemma view_direct_is_view : forall n ns, view_direct ns n = view ns n.
+Proof. reflexivity. Qed.    (* the two fixpoints have the same body *)
+
+Lemma view_ws_canonical : forall n ns, view_ws true true ns n = view ns n.
+Proof.
+  fix IH 1. intros [s t a k| | | | ] ns; try reflexivity.
+  cbn [view view_ws read_back]. cbv zeta. f_equal. f_equal.
+  induction k as [|x r IHr]; [reflexivity|]. cbn [flat_map]. rewrite IH, IHr. reflexivity.
+Qed.
+
+Lemma view_ws_default : forall n ns, view_ws false false ns n = view_original ns n.
+Proof.
+  fix IH 1. intros [s t a k| | | | ] ns; try reflexivity.
+  cbn [view_original view_ws read_back]. cbv zeta. f_equal. f_equal.
+  induction k as [|x r IHr]; [reflexivity|]. cbn [flat_map]. rewrite IH, IHr. reflexivity.
+Qed.
+
+Lemma unmarshal_element_direct_is_unmarshal_element sch name root :
+  unmarshal_element_direct sch name root = unmarshal_element sch name root.
+Proof. unfold unmarshal_element_direct, unmarshal_element. rewrite view_direct_is_view. reflexivity. Qed.
+
+Lemma unmarshal_element_ws_canonical sch name root :
+  unmarshal_element_ws true true sch name root = unmarshal_element sch name root.
+Proof. unfold unmarshal_element_ws, unmarshal_element. rewrite view_ws_canonical. reflexivity. Qed.
+
+Lemma unmarshal_element_ws_default sch name root :
+  unmarshal_element_ws false false sch name root = unmarshal_element_original sch name root.
+Proof. unfold unmarshal_element_ws, unmarshal_element_original. rewrite view_ws_default. reflexivity. Qed.
+
+(* the value an attr field without name space takes, read off the element itself: the last attribute with that local name *)
+Fixpoint last_attr_named (name : string) (attrs : list attr) : option attr :=
+  match attrs with
+  | [] => None
+  | a :: r => match last_attr_named name r with
+              | Some b => Some b
+              | None => if at_key a =?s name then Some a else None
+              end
+  end.
+Definition element_attr (name : string) (n : node) : string :=
+  match n with
+  | Elem _ _ attrs _ => match last_attr_named name attrs with Some a => at_val a | None => "" end
+  | _ => ""
+  end.
+
+Lemma last_matching_view_attrs (f : attr -> string) name attrs :
+  option_map xa_val
+    (last_matching "" name (map (fun a => {| xa_space := f a; xa_local := at_key a; xa_val := at_val a |}) attrs))
+  = option_map at_val (last_attr_named name attrs).
+Proof.
+  induction attrs as [|a r IH]; [reflexivity|]. cbn [map last_matching last_attr_named].
+  destruct (last_matching "" name _) as [b|]; destruct (last_attr_named name r) as [b'|]; cbn [option_map] in IH; try discriminate.
+  - exact IH.
+  - unfold attr_matches. cbn [xa_local xa_space]. change ("" =?s "") with true. cbn [orb]. rewrite Bool.andb_true_r.
+    destruct (at_key a =?s name); reflexivity.
+Qed.
